@@ -67,6 +67,9 @@ CHECKS = {
  "C18": dict(cat="exploration", tech="deterministic simulation: writer tasks and a Backup task under the seeded scheduler (every file operation of CopyDir is a yield point); the opened backup is compared with the model state at the backup's lock grant",
    text="Writers and readers plus one Backup(dir) task on one database, all index modes and RWModes; the backup directory must open with the same options and show exactly the state after the write transactions granted the lock before the backup's read transaction.",
    note="utils/filesystem.CopyDir is the real code running on the simulated disk."),
+ "C21": dict(cat="fault_enumeration", tech="deterministic simulation with stored-byte corruption: round trip through reopen in all index modes, then single bit flips / truncations of record-bearing files with an exact replay oracle (RAM modes) and a genuineness oracle (all modes)",
+   text="Seeded KV histories with extreme field values are read back after reopens in all index modes; the closed directory is then damaged one fault at a time (bit flip in the used bytes of a .dat/.bptridx/.meta file, or truncation) and Open, all reads, Merge and a second reopen run on each damaged copy: every returned pair must be a pair some Put stored for that bucket and key, and in the RAM index modes the contents must equal a replay of the stored records with the damaged record (and optionally the rest of its file) absent.",
+   note="B+ tree node files carry no checksum and are not damaged; flips that turn a length field into >= 64 KiB are moved to the low 16 bits (the implementation allocates the claimed length first: a resource problem); the round trip over field values the API cannot produce is not claimed."),
 }
 
 ORDER = sorted(CHECKS)
